@@ -662,3 +662,152 @@ def judge(ctx, sc, obs):
             ctx.oracle_fail("incoming-share-left-after-unhappiness", "upload failed with UploadUnhappinessError and did not abort the buckets %r (still in incoming/)" % (left,),
                             case=case, expected="every allocated bucket aborted", observed=left)
     return bad
+
+
+# ---------------------------------------------------------------------------------------------
+# designed scenarios (boundaries of the happiness test, abort paths, replanning)
+# ---------------------------------------------------------------------------------------------
+def designed():
+    base = {"seed": 11, "k": 1, "size": 300, "segsize": 150, "batch": 60, "pre": [], "states": {}, "faults": [], "download": True}
+
+    def sc(**kw):
+        d = dict(base)
+        d.update(kw)
+        return d
+    out = [
+        # happiness exactly at the threshold / one below it
+        sc(servers=3, N=3, happy=3),
+        sc(servers=3, N=3, happy=3, states={"2": "full"}),
+        sc(servers=4, N=4, happy=3, states={"1": "full"}),
+        sc(servers=4, N=4, happy=4, states={"1": "ro"}),
+        # many servers, few distinct shares: number of servers exceeds the matching
+        sc(servers=3, N=2, happy=2, pre=[[0, 0], [1, 0], [2, 0]], states={"0": "full", "1": "full", "2": "full"}),
+        sc(servers=4, N=3, happy=3, pre=[[0, 1], [1, 1], [2, 1], [3, 1]], states={"0": "ro-announced", "1": "ro-announced", "2": "full"}),
+        sc(servers=5, N=4, happy=3, pre=[[0, 2], [1, 2], [2, 2]], states={"0": "ro", "1": "full", "2": "ro-announced", "3": "full"}),
+        # selector failure with buckets already allocated (abort path of _failed)
+        sc(servers=3, N=3, happy=3, faults=[{"server": 1, "method": "allocate_buckets", "nth": 0, "count": None, "action": "error"}]),
+        sc(servers=5, N=5, happy=5, states={"4": "full"}, k=2),
+        # encoder: a write / the close fails at the threshold, and one above it
+        sc(servers=3, N=3, happy=3, faults=[{"server": 2, "method": "write", "nth": 1, "count": 1, "action": "error"}]),
+        sc(servers=3, N=3, happy=2, faults=[{"server": 2, "method": "write", "nth": 1, "count": 1, "action": "error"}]),
+        sc(servers=3, N=3, happy=3, faults=[{"server": 0, "method": "close", "nth": 0, "count": 1, "action": "error"}]),
+        sc(servers=3, N=3, happy=3, faults=[{"server": 0, "method": "close", "nth": 0, "count": 1, "action": "error_after"}]),
+        sc(servers=4, N=4, happy=3, faults=[{"server": 0, "method": "close", "nth": 0, "count": 1, "action": "error"},
+                                            {"server": 1, "method": "write", "nth": 0, "count": 1, "action": "error_after"}]),
+        sc(servers=4, N=4, happy=2, batch=None, faults=[{"server": 3, "method": "write", "nth": 0, "count": None, "action": "error"},
+                                                        {"server": 2, "method": "close", "nth": 0, "count": 1, "action": "error"}]),
+        # pre-existing shares count towards happiness; a failing server that holds one still counts as found
+        sc(servers=3, N=3, happy=3, pre=[[0, 0], [1, 1]], states={"0": "ro-announced", "1": "ro-announced"}),
+        sc(servers=3, N=3, happy=3, pre=[[0, 0], [1, 0]], states={"0": "ro-announced", "1": "ro-announced"}),
+        # second allocation round re-plans shares (AssertionError before /repo 111e37b)
+        {"seed": 52050709, "servers": 6, "k": 3, "N": 4, "size": 1000, "segsize": 1000, "batch": 40, "pre": [[1, 2], [2, 0], [3, 0]],
+         "states": {"1": "full", "3": "ro"}, "faults": [], "happy": 4, "download": True},
+        {"seed": 894546294, "servers": 8, "k": 2, "N": 4, "size": 56, "segsize": 14, "batch": 40, "pre": [], "first": [1, 6], "states": {},
+         "faults": [{"server": 2, "method": "allocate_buckets", "nth": 0, "count": 1, "action": "drop"},
+                    {"server": 5, "method": "get_buckets", "nth": 0, "count": 1, "action": "error"},
+                    {"server": 6, "method": "get_buckets", "nth": 0, "count": None, "action": "delay"}], "happy": 4, "download": False},
+    ]
+    return out
+
+
+def corpus_scenarios():
+    import glob
+    import json
+    from core import env
+    out = []
+    for p in sorted(glob.glob(os.path.join(env.CORPUS, "C06", "*.json"))):
+        with open(p) as f:
+            d = json.load(f)
+        out.append(d.get("scenario", d))
+    return out
+
+
+# ---------------------------------------------------------------------------------------------
+# driver
+# ---------------------------------------------------------------------------------------------
+def nontrivial(sc):
+    return bool(sc.get("states")) or bool(sc.get("pre")) or sc.get("first") is not None or \
+        any(f.get("action") != "delay" for f in sc.get("faults", []))
+
+
+def one_case(ctx, sc, terms, info, origin):
+    import json
+    obs = run_scenario(sc)
+    v = impl_verdict(obs)
+    rounds = len(obs["rec"]["rounds"])
+    ctx.case(json.dumps(sc, sort_keys=True) if nontrivial(sc) else None,
+             kind="%s:%s%s" % (origin, v or obs["status"], ":rounds>1" if rounds > 1 else ""))
+    case = {"scenario": sc}
+    judge(ctx, sc, obs)
+    if obs["status"] == "AssertionError" and obs["rec"]["enc"]["assert"]:
+        ctx.oracle_fail("upload-assertion-duplicate-share-writers",
+                        "the selector reported success, then set_shareholders raised AssertionError (two servers hold a writer for one share): "
+                        "the upload fails without UploadUnhappinessError and its buckets %r are never aborted" % (obs["incoming"],),
+                        case=case, expected="success or UploadUnhappinessError", observed=obs["message"])
+    if v is None:
+        ctx.mismatch("upload-outcome-outside-model", "the upload ended with %s, which the model does not produce (%s)" % (obs["status"], obs["message"]),
+                     case=case, expected="ok / UploadUnhappinessError", observed={"status": obs["status"], "lost": obs["lost"]},
+                     correspondence="upload-trace-vs-model")
+        return obs
+    if obs["status"] == "ok" and obs["partial"]:
+        ctx.mismatch("partial-share-visible-after-success", "readers see incomplete shares %r after a successful upload (the model's visible_share_complete excludes it)" % (obs["partial"],),
+                     case=case, observed=obs["partial"], correspondence="upload-trace-vs-model")
+    if obs["status"] == "ok" and not obs["cap_ok"]:
+        ctx.mismatch("cap-differs-from-fault-free-upload", "the cap returned under faults differs from the cap of the fault-free upload of the same file",
+                     case=case, correspondence="upload-trace-vs-model")
+    terms.append(model_term(sc, obs))
+    info.append((sc, obs["status"], v))
+    return obs
+
+
+def run(ctx):
+    ctx.correspondence("upload-trace-vs-model")
+    terms, info = [], []
+    fixed = [("corpus", s) for s in corpus_scenarios()] + [("designed", s) for s in designed()]
+    for origin, sc in fixed:
+        one_case(ctx, sc, terms, info, origin)
+    n = ctx.n(90, 1400)
+    for i in range(n):
+        r = ctx.rng("grid", i)
+        sc = gen_scenario(r)
+        obs = one_case(ctx, sc, terms, info, "grid")
+        if i < 3:
+            ctx.sample({"scenario": sc, "status": obs["status"], "sharemap": obs.get("sharemap"), "visible": obs["visible"],
+                        "rounds": len(obs["rec"]["rounds"])})
+    bad = ctx.coq_check(IMPORTS, terms, tag="c06")
+    for ix in bad:
+        sc, status, v = info[ix]
+        ctx.mismatch("upload-model-differs", "Model/UploadSel.v replayed on the recorded answers disagrees with the real upload (%s) on verdict, bookkeeping, "
+                     "queries, aborts, closes or maps" % v, case={"scenario": sc}, observed=status, correspondence="upload-trace-vs-model")
+    ctx.trace(len(terms) - len(bad))
+    ctx.note("%d scenarios replayed on the model; reference shares cached for %d parameter sets" % (len(terms), len(_refs)))
+
+
+def replay(ctx, record):
+    sc = (record.get("case") or {}).get("scenario")
+    if sc is None:
+        return {"error": "record has no scenario"}
+    obs = run_scenario(sc)
+    out = {"status": obs["status"], "message": obs["message"], "sharemap": obs.get("sharemap"), "visible": obs["visible"], "partial": obs["partial"],
+           "incoming": obs["incoming"], "found": found_edges(sc, obs), "order": obs["order"], "download": obs.get("download"),
+           "rounds": obs["rec"]["rounds"], "encoder": obs["rec"]["enc"], "wire": obs["wire"]}
+
+    class _C(object):
+        def __init__(self):
+            self.fails = []
+
+        def oracle_fail(self, kind, what, **kw):
+            self.fails.append({"kind": kind, "what": what})
+    c = _C()
+    judge(c, sc, obs)
+    out["oracle_failures"] = c.fails
+    if impl_verdict(obs) is not None:
+        cfg, script = model_inputs(sc, obs)
+        out["model_agrees"] = not ctx.coq_check(IMPORTS, [model_term(sc, obs)], tag="c06replay")
+        out["model"] = ctx.coq_eval(IMPORTS, "(let r := upload_run %s %s in (r_verdict r, r_placed r, r_servermap r, aborted_buckets (r_log r), r_queries r))" % (cfg, script))
+    return out
+
+
+def search(ctx, mismatches):
+    """Nothing beyond run(): with ctx.search the random stream uses the thorough budget under another seed."""
+    return None
